@@ -9,4 +9,4 @@ PYTHONPATH=$WT/src /venv/bin/python -W ignore $DEMO >/dev/null 2>&1; echo "demo 
 VERIF_REPO=$WT /venv/bin/python harness/check.py $P --tier quick 2>&1 | grep -v condarc | grep -e VIOLATION -e "tier=" -e "broken:" | cut -c1-300
 git -C $WT checkout -q -- .
 # the run above regenerated coq/gen/ from the changed worktree: put back what /repo says
-VERIF_NO_EVIDENCE=1 /venv/bin/python harness/regen.py >/dev/null 2>&1 || git -C /verif checkout -q -- coq/gen
+case $P in C04|C05|C09|C10) VERIF_NO_EVIDENCE=1 /venv/bin/python harness/regen.py >/dev/null 2>&1 || git -C /verif checkout -q -- coq/gen ;; esac
